@@ -245,14 +245,29 @@ func (s *Sim) BankDigest() string {
 // redelegation flag), handler in a cache context that is written only on success; on failure the
 // mock bank is restored as well. Panics are recovered and reported (a tx panic is a failed tx).
 func (s *Sim) Tx(name, desc string, msg sdk.Msg, f func(ctx context.Context) (any, error)) *TxRes {
+	var msgs []sdk.Msg
+	if msg != nil {
+		msgs = []sdk.Msg{msg}
+	}
+	return s.TxMsgs(name, desc, msgs, f)
+}
+
+// TxMsgs is Tx for a transaction that batches several messages: every message passes ValidateBasic, the ante
+// emulation sees the whole list (it rejects a redelegation batched with other messages), and f runs the message
+// handlers in order inside the one cache context (all or nothing).
+func (s *Sim) TxMsgs(name, desc string, msgs []sdk.Msg, f func(ctx context.Context) (any, error)) *TxRes {
 	s.Step++
+	var msg sdk.Msg
+	if len(msgs) > 0 {
+		msg = msgs[0]
+	}
 	res := &TxRes{Step: s.Step, Name: name, Desc: desc, Msg: msg}
 	for _, m := range s.Mons {
 		m.BeforeTx(s, name, msg)
 	}
 	s.Stats["tx:"+name]++
-	if msg != nil {
-		if err := msg.ValidateBasic(); err != nil {
+	for _, m := range msgs {
+		if err := m.ValidateBasic(); err != nil && res.Err == nil {
 			res.Err = fmt.Errorf("ValidateBasic: %w", err)
 		}
 	}
@@ -261,14 +276,19 @@ func (s *Sim) Tx(name, desc string, msg sdk.Msg, f func(ctx context.Context) (an
 		outer := s.TS.Ctx
 		cc, write := outer.CacheContext()
 		cc = cc.WithEventManager(sdk.NewEventManager())
-		if msg != nil {
-			_ = s.rf.DisableRedelegationHooks(cc, []sdk.Msg{msg})
+		var anteErr error
+		if len(msgs) > 0 {
+			anteErr = s.rf.DisableRedelegationHooks(cc, msgs)
 		} else {
 			s.TS.Keepers.Dualstaking.SetDisableDualstakingHook(cc, false)
 		}
 		s.TS.Ctx = cc
 		s.TS.GoCtx = sdk.WrapSDKContext(cc)
 		func() {
+			if anteErr != nil {
+				res.Err = fmt.Errorf("ante: %w", anteErr)
+				return
+			}
 			defer func() {
 				if r := recover(); r != nil {
 					res.Panic = fmt.Sprint(r)
